@@ -25,7 +25,11 @@ Obligations generated from the real source on every run (DESIGN §3 C04):
      default, cached result flows into it: c04_flow.SharedSources), decided natively by three extractions in one process;
  (i) DT-TYPED at the source: no recognised source of None reaches an int / str / bytes field at an image constructor.
 BOUNDED (never counted as proved): the native sweep (all fixtures, every accessor, repeated extractions) and the small-scope
-enumeration of hand-built content objects for iterate_units / get_full_text / iterate_images / iterate_tables.
+enumeration of hand-built content objects for iterate_units / get_full_text (iterate_images / iterate_tables: contracts since round 7).
+Round 7: (j) XlsSheet.get_table (rows computed from records) has a verified shape contract -- [] without records, else header row +
+one row per record, each with one cell per key of the first record (loop invariant + pointwise clause) -- which replaces the assumed
+opaque model; get_dim's call site sees the verified postcondition.  (k) iterate_images / iterate_tables of all 17 content classes:
+raise nothing on well-typed instances and yield only objects of classes implementing ImageInterface / TableInterface.
 """
 import ast
 
@@ -138,6 +142,108 @@ def table_contract(cls):
         raises=[],
         note="get_dim() == (len(T), max(len(row) for row in T), 0 for the empty table) with T = get_table()",
     )
+
+
+# ------------------------------------------- tables built from records --
+PYDICT = ext_sort("PyDict")
+DICT_LEN = fun("dict_len", PYDICT, I)          # same symbol as c04_exec.install_pydict: number of keys of a dict value
+
+
+def record_table_classes(mod):
+    """TableInterface classes whose rows are COMPUTED from a list of records (`data: List[Dict[...]]`; today: XlsSheet):
+    found by the declared field kind, not by name."""
+    out = []
+    for cls in classes_implementing(mod, "TableInterface"):
+        sch = E.class_schema(mod, cls) or {}
+        if sch.get("data") == ("list", "dict") and f"{cls}.get_table" in mod.functions:
+            out.append(cls)
+    return out
+
+
+def record_shape(cls, me):
+    """(number of rows, cells per row) of the table of abstract instance `me`: header row + one row per record, every row
+    with one cell per key of the FIRST record; the empty table when there is no record."""
+    dlen = fld_len(cls, "data")(me)
+    nkeys = DICT_LEN(fld_at(cls, "data", PYDICT)(me, 0))
+    return z3.If(dlen <= 0, z3.IntVal(0), dlen + 1), nkeys
+
+
+def record_table_view(cls, me):
+    """Call-site view of <cls>.get_table(): the row count the verified postcondition states; the length of row r is a function
+    of (instance, r) -- weaker than (hence implied by) the verified `one cell per key of the first record`, which callers get as
+    an assumed postcondition at the call; kept indexed by r so that fold / seq_max summaries of callers' loops over the rows keep
+    their shape (a row length that does not mention the index made the harmless `_dim_of(self.get_table())` helper undecided)."""
+    n, _w = record_shape(cls, me)
+    rl = fun(f"{cls}.get_table().rowlen", ext_sort(cls), I, I)
+    return VSeq(n, lambda r: VSeq(E.clamp(rl(me, r)), lambda k: VUnk("cell"), "unk", tag=("row", cls, "get_table")), "row", tag=("result", cls, "get_table"))
+
+
+def record_table_contract(mod, cls):
+    """VERIFIED on the real body (round 7; before: the assumed opaque model `XlsSheet.get_table(): a pure function of the
+    instance`).  The call-site view (`call_outcomes`, record_table_view) has the proved row count and row lengths that are a function
+    of (instance, row index): implied by what is proved here; the postconditions themselves are assumed on the result at the call."""
+    def view(c):
+        r = c.result
+        if isinstance(r, VRef) and c.st.obj(r.ref).kind not in ("alist", "list"):
+            return None
+        return table_view(c, c.st, r)
+
+    def definite_non_table(c):
+        r = c.result
+        return r is NONE or isinstance(r, (VStr, VInt, VBool, VReal))
+
+    def e_rows(c):
+        tv = view(c)
+        if tv is None:
+            c.note = f"get_table() returns {c.result!r}: not recognised as a list of rows"
+            return z3.BoolVal(False) if definite_non_table(c) else UNRECOGNISED
+        return tv[0] == record_shape(cls, c.args["self"].t)[0]
+
+    def e_width(c):
+        tv = view(c)
+        if tv is None:
+            c.note = f"get_table() returns {c.result!r}: not recognised as a list of rows"
+            return z3.BoolVal(False) if definite_non_table(c) else UNRECOGNISED
+        n, lens = tv
+        k = z3.Int(fresh_name("row"))
+        return z3.Implies(z3.And(k >= 0, k < n), z3.Select(lens, k) == record_shape(cls, c.args["self"].t)[1])
+
+    def rows_of(lc):
+        """the list under construction: the one abstract list of rows among the locals (found by kind, not by name)"""
+        fr = lc.st.frames[-1]
+        for name, v in fr.env.items():
+            if isinstance(v, VRef) and lc.st.heap.get(v.ref) is not None:
+                o = lc.st.obj(v.ref)
+                if o.kind == "alist" and o.data.ekind == "row":
+                    return o.data
+                if o.kind == "list" and o.data is not None and all(isinstance(x, VSeq) for x in o.data):
+                    items = list(o.data)
+                    if not items:
+                        return VSeq(z3.IntVal(0), lambda k: VSeq(z3.IntVal(0), None, "unk"), "row")
+                    return VSeq(z3.IntVal(len(items)), lambda k, items=items: VSeq(X._sel([VInt(x.length) for x in items], k).t, None, "unk"), "row")
+        raise E.Unsupported("loop invariant: no list of rows under construction among the locals")
+
+    def inv(lc):
+        return rows_of(lc).length == lc.i + 1
+
+    def inv_point(lc, j):
+        sq = rows_of(lc)
+        return z3.Implies(z3.And(j >= 0, j < sq.length), sq.elem(j).length == record_shape(cls, lc.st.lookup("self").t)[1])
+
+    c = FnContract(
+        target=f"{DT}::{cls}.get_table",
+        params=[("self", p_ext(cls))],
+        ensures=[("row-count-is-header-plus-one-per-record-or-empty", e_rows),
+                 ("every-row-has-one-cell-per-key-of-the-first-record", e_width)],
+        raises=[],
+        loops={0: LoopSpec(inv=inv, inv_point=inv_point, label="rows")},
+        inline=False,
+        note="get_table(): [] without records, else header row + one row per record, each with one cell per key of the first record; "
+             "raises nothing on a well-typed instance (DT-TYPED).  Call sites (get_dim) see exactly this shape.",
+    )
+    c.call_outcomes = lambda ctx: [(z3.BoolVal(True), record_table_view(cls, ctx.args["self"].t))]
+    c.row_lists = True        # executor: lists the body appends rows to are havocked as sequences of rows (c04_exec.havoc_loop_state)
+    return c
 
 
 # ------------------------------------------------------------------ images --
@@ -423,11 +529,70 @@ def accessor_contract(mod, cls, name, iface):
 
 def accessor_contracts(mod):
     out = []
+    computed = set(record_table_classes(mod))
     for iface, names in ACCESSORS.items():
         for cls in classes_implementing(mod, iface):
             for name in names:
+                if name == "get_table" and cls in computed:
+                    out.append(record_table_contract(mod, cls))      # shape contract (includes totality), not inlined by callers
+                    continue
                 if f"{cls}.{name}" in mod.functions:
                     out.append(accessor_contract(mod, cls, name, iface))
+    return out
+
+
+# ------------------------------------------- iterate_images / iterate_tables --
+ITERATORS = {"iterate_images": "ImageInterface", "iterate_tables": "TableInterface"}
+
+
+def iterator_contract(mod, cls, name, iface):
+    """Round 7 (before: only the BOUNDED small scope and the fixture sweep exercised these generators): on an instance whose
+    fields hold values of their declared types the generator raises nothing, and every value it yields is an instance of a class
+    implementing the interface the method promises (checked at each `yield` of the real body, for an arbitrary element of the
+    symbolic-length lists the loops run over).  Loops mutate nothing, so their invariant is `True`."""
+    impl = set(classes_implementing(mod, iface))
+    fnode = mod.functions[f"{cls}.{name}"]
+    nloops = sum(1 for n in ast.walk(fnode) if isinstance(n, (ast.For, ast.While)))
+
+    def check(ex, st, v):
+        k = None
+        if isinstance(v, VExt):
+            k = v.sort
+        elif isinstance(v, VRef) and st.heap.get(v.ref) is not None and st.obj(v.ref).kind == "obj":
+            k = st.obj(v.ref).cls
+        if k is not None:
+            if k in impl:
+                return z3.BoolVal(True), ""
+            if k in mod.classes:
+                return z3.BoolVal(False), f"{name}() yields a {k}, which does not implement {iface}"
+            return UNRECOGNISED, f"{name}() yields an object of unknown class {k}"
+        if v is NONE or isinstance(v, (VStr, VInt, VBool, VReal, VSeq, VTuple)) or \
+                (isinstance(v, VRef) and st.heap.get(v.ref) is not None and st.obj(v.ref).kind in ("list", "alist", "dict")):
+            return z3.BoolVal(False), f"{name}() yields {v!r}, not an object implementing {iface}"
+        return UNRECOGNISED, f"{name}() yields {v!r}: kind not recognised"
+
+    c = FnContract(
+        target=f"{DT}::{cls}.{name}",
+        params=[("self", p_ext(cls))],
+        ensures=[],
+        raises=[],
+        generator=True,
+        total=True,
+        loops={k: LoopSpec(inv=lambda lc: z3.BoolVal(True), label=f"loop{k}") for k in range(nloops)},
+        note=f"{cls}.{name}() raises nothing on a well-typed instance and yields only {iface} objects",
+    )
+    c.plain_yield = True
+    c.yield_check = check
+    c.yield_label = f"every-yielded-value-implements-{iface}"
+    return c
+
+
+def iterator_contracts(mod):
+    out = []
+    for cls in classes_implementing(mod, "ExtractionInterface"):
+        for name, iface in ITERATORS.items():
+            if f"{cls}.{name}" in mod.functions:
+                out.append(iterator_contract(mod, cls, name, iface))
     return out
 
 
@@ -501,16 +666,9 @@ def length_helper_contracts(mod):
 
 
 def install_opaque():
-    OP = IfaceExecutor.OPAQUE
-
-    def xls_table(ex, st, o, a, env):
-        """XlsSheet.get_table(): header row + one row per record -- a pure function of the instance (C06 frame
-        obligation); its shape is opaque here, totality is obligation (f)."""
-        n = fun("XlsSheet.get_table().len", ext_sort("XlsSheet"), I)(o.t)
-        st.assume(n >= 0)
-        rl = fun("XlsSheet.get_table().rowlen", ext_sort("XlsSheet"), I, I)
-        return VSeq(n, lambda r: VSeq(E.clamp(rl(o.t, r)), lambda k: VUnk("cell"), "unk"), "row")
-    OP[("XlsSheet", "get_table")] = xls_table
+    """Round 7: no opaque accessor is left.  XlsSheet.get_table() used to be an uninterpreted function of the instance here
+    (assumed); it is now under the verified contract `record_table_contract`, whose postcondition is the call-site view."""
+    IfaceExecutor.OPAQUE.pop(("XlsSheet", "get_table"), None)
 
 
 def contracts(reg):
@@ -525,6 +683,7 @@ def contracts(reg):
     install_pathlib(reg)
     out.append(populate_contract())
     out.extend(accessor_contracts(mod))
+    out.extend(iterator_contracts(mod))
     install_re(reg, mod)
     out.extend(length_helper_contracts(mod))
     return out
@@ -562,7 +721,8 @@ def native_sweep(repo, tier):
 
 def content_small_scope(repo, tier):
     """BOUNDED stand-in (DESIGN 2.8) for the accessors this pack does not put under a symbolic contract (iterate_units /
-    get_full_text / iterate_images / iterate_tables of the content classes): every accessor is called natively on hand-built,
+    get_full_text of the content classes; iterate_images / iterate_tables are under `iterator_contract` since round 7 and are
+    merely exercised again here): every accessor is called natively on hand-built,
     well-typed content objects of a small scope (replay/C04.py::content_scope).  Never counted as proved."""
     import json
     import os
@@ -609,7 +769,6 @@ ASSUMED_MODELS = [
     "OverflowError (inf) / ValueError (nan)",
     "IMD-MIRROR: the @dataclass constructor of ImageMetadata (a dict subclass with __setattr__ / __post_init__ mirroring the fields into "
     "the dict) is total and stores the given fields; TableDim(...) likewise",
-    "XlsSheet.get_table(): a pure function of the instance (its shape is opaque; totality is verified separately)",
     "dict values of well-typed fields: keys() / values() / items() / get() total",
 ]
 ASSUMPTIONS = [
